@@ -102,6 +102,10 @@ def evaluate(sid, wt, tier, props):
     mp = os.path.join(dst, "meta.json")
     meta = json.load(open(mp))
     git(wt, "checkout", "-q", "--", ".")
+    # evaluate on top of the current /repo HEAD (fixes included)
+    rc, head = sh(["git", "-C", "/repo", "rev-parse", "HEAD"])
+    if meta.get("status") != "superseded":
+        git(wt, "checkout", "-q", "--detach", head.strip())
     rc, out = git(wt, "apply", os.path.join(dst, "patch.diff"))
     if rc != 0:
         print("APPLY FAILED", out)
